@@ -695,6 +695,45 @@ def extract_readout(repo: Path):
     return params, carried
 
 
+
+# ------------------------------------------------------------------------------------------ constructor parameters
+
+# every class an object of which pyxel.load builds from the document
+REACHABLE = [
+    ("Exposure", "pyxel/exposure/exposure.py"), ("Readout", "pyxel/exposure/readout.py"),
+    ("Observation", "pyxel/observation/observation.py"), ("ParameterValues", "pyxel/observation/parameter_values.py"),
+    ("Calibration", "pyxel/calibration/calibration.py"), ("Algorithm", "pyxel/calibration/algorithm.py"),
+    ("ExposureOutputs", "pyxel/outputs/exposure_outputs.py"), ("ObservationOutputs", "pyxel/outputs/observation_outputs.py"),
+    ("CalibrationOutputs", "pyxel/outputs/calibration_outputs.py"),
+    ("ModelFunction", "pyxel/pipelines/model_function.py"), ("FitnessFunction", "pyxel/pipelines/model_function.py"),
+    ("DetectionPipeline", "pyxel/pipelines/pipeline.py"),
+    ("Geometry", "pyxel/detectors/geometry.py"), ("Characteristics", "pyxel/detectors/characteristics.py"),
+    ("APDCharacteristics", "pyxel/detectors/apd/apd_characteristics.py"), ("Environment", "pyxel/detectors/environment.py"),
+    ("WavelengthHandling", "pyxel/detectors/environment.py"),
+]
+
+
+def ctor_params(repo: Path, cname: str, rel: str):
+    """the names a document may write for an object of this class: parameters of __init__, or the fields of a dataclass"""
+    tree = parse(repo, rel)
+    cn = class_node(tree, cname)
+    inits = [n for n in cn.body if isinstance(n, ast.FunctionDef) and n.name == "__init__"]
+    if len(inits) == 1:
+        a = inits[0].args
+        if a.vararg or a.kwarg or a.posonlyargs:
+            fail(inits[0], f"{cname}.__init__: *args / **kwargs / positional-only parameters")
+        return [x.arg for x in a.args[1:]] + [x.arg for x in a.kwonlyargs]
+    if inits:
+        fail(cn, f"{cname}: several __init__")
+    if any(ast.unparse(d).split("(")[0] in ("dataclass", "dataclasses.dataclass") for d in cn.decorator_list):
+        return [st.target.id for st in cn.body if isinstance(st, ast.AnnAssign) and isinstance(st.target, ast.Name)]
+    fail(cn, f"{cname}: neither __init__ nor a dataclass")
+
+
+def extract_ctor_params(repo: Path):
+    return [(c, ctor_params(repo, c, rel)) for c, rel in REACHABLE]
+
+
 # ------------------------------------------------------------------------------------------ entry
 
 
@@ -731,6 +770,8 @@ def translate(repo: Path) -> str:
     rparams, carried = extract_readout(repo)
     out += f"Definition src_readout_params : list string := [{'; '.join(gstr(k) for k in rparams)}].\n"
     out += f"Definition src_replace_carried : list string := [{'; '.join(gstr(k) for k in carried)}].\n"
+    rows = [f"  ({gstr(c)}, [{'; '.join(gstr(k) for k in ps)}])" for c, ps in extract_ctor_params(repo)]
+    out += "Definition src_ctor_params : list (string * list string) := [\n" + ";\n".join(rows) + "\n].\n"
     return out
 
 
@@ -818,4 +859,23 @@ Definition src_mode_dispatch : list string := ["exposure"%string; "observation"%
 Definition src_detector_dispatch : list string := ["ccd_detector"%string; "cmos_detector"%string; "mkid_detector"%string; "apd_detector"%string].
 Definition src_readout_params : list string := ["times"%string; "times_from_file"%string; "start_time"%string; "non_destructive"%string].
 Definition src_replace_carried : list string := ["times"%string; "start_time"%string; "non_destructive"%string].
+Definition src_ctor_params : list (string * list string) := [
+  ("Exposure"%string, ["readout"%string; "outputs"%string; "result_type"%string; "pipeline_seed"%string; "working_directory"%string]);
+  ("Readout"%string, ["times"%string; "times_from_file"%string; "start_time"%string; "non_destructive"%string]);
+  ("Observation"%string, ["parameters"%string; "outputs"%string; "readout"%string; "mode"%string; "from_file"%string; "column_range"%string; "with_dask"%string; "result_type"%string; "pipeline_seed"%string; "working_directory"%string]);
+  ("ParameterValues"%string, ["key"%string; "values"%string; "boundaries"%string; "enabled"%string; "logarithmic"%string]);
+  ("Calibration"%string, ["target_data_path"%string; "fitness_function"%string; "algorithm"%string; "parameters"%string; "outputs"%string; "readout"%string; "mode"%string; "result_type"%string; "result_fit_range"%string; "result_input_arguments"%string; "target_fit_range"%string; "pygmo_seed"%string; "pipeline_seed"%string; "num_islands"%string; "num_evolutions"%string; "num_best_decisions"%string; "topology"%string; "type_islands"%string; "weights_from_file"%string; "weights"%string; "working_directory"%string]);
+  ("Algorithm"%string, ["type"%string; "generations"%string; "population_size"%string; "variant"%string; "variant_adptv"%string; "ftol"%string; "xtol"%string; "memory"%string; "cr"%string; "eta_c"%string; "m"%string; "param_m"%string; "param_s"%string; "crossover"%string; "mutation"%string; "selection"%string; "nlopt_solver"%string; "maxtime"%string; "maxeval"%string; "xtol_rel"%string; "xtol_abs"%string; "ftol_rel"%string; "ftol_abs"%string; "stopval"%string; "local_optimizer"%string; "replacement"%string; "nlopt_selection"%string]);
+  ("ExposureOutputs"%string, ["output_folder"%string; "custom_dir_name"%string; "save_data_to_file"%string; "save_exposure_data"%string]);
+  ("ObservationOutputs"%string, ["output_folder"%string; "custom_dir_name"%string; "save_data_to_file"%string; "save_observation_data"%string]);
+  ("CalibrationOutputs"%string, ["output_folder"%string; "custom_dir_name"%string; "save_data_to_file"%string; "save_calibration_data"%string]);
+  ("ModelFunction"%string, ["func"%string; "name"%string; "arguments"%string; "enabled"%string]);
+  ("FitnessFunction"%string, ["func"%string; "arguments"%string]);
+  ("DetectionPipeline"%string, ["scene_generation"%string; "photon_collection"%string; "phasing"%string; "charge_generation"%string; "charge_collection"%string; "charge_transfer"%string; "charge_measurement"%string; "signal_transfer"%string; "readout_electronics"%string; "data_processing"%string]);
+  ("Geometry"%string, ["row"%string; "col"%string; "total_thickness"%string; "pixel_vert_size"%string; "pixel_horz_size"%string; "pixel_scale"%string]);
+  ("Characteristics"%string, ["quantum_efficiency"%string; "charge_to_volt_conversion"%string; "pre_amplification"%string; "full_well_capacity"%string; "adc_bit_resolution"%string; "adc_voltage_range"%string]);
+  ("APDCharacteristics"%string, ["roic_gain"%string; "quantum_efficiency"%string; "full_well_capacity"%string; "adc_bit_resolution"%string; "adc_voltage_range"%string; "avalanche_gain"%string; "pixel_reset_voltage"%string; "common_voltage"%string]);
+  ("Environment"%string, ["temperature"%string; "wavelength"%string]);
+  ("WavelengthHandling"%string, ["cut_on"%string; "cut_off"%string; "resolution"%string])
+].
 '''
